@@ -458,6 +458,11 @@ def _format_parser(v, binc):
         if f.get("name") == "parse_with":
             for a in t["args"]:
                 if a.get("k") == "fn":
+                    # a value parser of some other option (`--max-depth n` parsed with its own function) is not the
+                    # format-name parser: that one yields a Format
+                    cb = binc.by_id.get(a["def"])
+                    if cb is not None and "Format" not in str(cb.raw.get("ret_ty", "")):
+                        continue
                     users.append((n, a["def"]))
     return users
 
